@@ -168,7 +168,7 @@ fn eval_builtin_incbin(
                 query.report,
                 query.args[2].span)?;
 
-            start + size
+            start.saturating_add(size)
         }
         else
         {
@@ -341,7 +341,7 @@ fn eval_builtin_incstr(
                 query.report,
                 query.args[2].span)?;
 
-            start + size
+            start.saturating_add(size)
         }
         else
         {
@@ -349,7 +349,7 @@ fn eval_builtin_incstr(
         }
     };
 
-    if (start * bits_per_char) >= bigint_size
+    if start.saturating_mul(bits_per_char) >= bigint_size
     {
         query.report.error_span(
             format!(
@@ -361,7 +361,7 @@ fn eval_builtin_incstr(
         return Err(());
     }
 
-    if (end * bits_per_char) > bigint_size
+    if end.saturating_mul(bits_per_char) > bigint_size
     {
         query.report.error_span(
             format!(
